@@ -8,6 +8,7 @@ import gencheck
 def run(rep, tier, seed, replay):
     c.build_harness()
     mc = rt.cached_model_check("thrift-async", "MCThriftAsync", "MCThriftAsync.cfg", tier)
+    ind = rt.async_inductive(tier)
     cases, cst = c.cached_tlc_file("async-" + tier, "MCAsync", [tier], {"VERIF_TIER": tier}, timeout=1800)
     out = os.path.join(c.OUT, f"async_result-{os.getpid()}.ndjson")
     trace = os.path.join(c.OUT, f"async_trace-{os.getpid()}.ndjson")
@@ -35,7 +36,7 @@ def run(rep, tier, seed, replay):
         "rule": "one case = (message, protocol, delivery schedule): whole, byte-wise, byte-wise with a Pending before every byte, "
                 "seeded random chunk sizes with Pendings, every way of cutting a message of <= 10 (quick) / 13 (thorough) bytes into "
                 "chunks, and end-of-stream at every offset; each compared with the in-memory decode of the same bytes",
-        "model": mc, "drive": summary, "poll_events_validated": events,
+        "model": mc, "inductive_invariant": ind, "drive": summary, "poll_events_validated": events,
         "exhaustive": False,
     }
     rep.assumptions = ["request sequences of the async protocols are modelled in spec/AsyncReads.tla and bound to the code by "
